@@ -120,6 +120,7 @@ def run(tier: str, seed: int) -> int:
             nproc = 0
             secs = 0.0
             dropped = {}
+            partial = {}
             import glob
             import json
             for rd in range(rounds):
@@ -138,8 +139,12 @@ def run(tier: str, seed: int) -> int:
                         for f in os.listdir(src):
                             if f.startswith("k") and int(f[1:7]) in dropped:
                                 os.remove(os.path.join(src, f))
+                        # every process expands the declarations in another (rotated) order: what was expanded before an
+                        # input differs from process to process (state carried between expansions, round 5 / V14b)
+                        k = (crates.index(c) * 7 + rd) % max(1, len(live))
+                        rot = live[k:] + live[:k]
                         with open(os.path.join(src, "lib.rs"), "w") as fh:
-                            fh.write("#![allow(dead_code, unreachable_patterns)]\n" + "".join("pub mod k%06d;\n" % i for i in live))
+                            fh.write("#![allow(dead_code, unreachable_patterns)]\n" + "".join("pub mod k%06d;\n" % i for i in rot))
                     os.makedirs(os.path.join(root, "hooklog"), exist_ok=True)
                     for f in glob.glob(os.path.join(root, "hooklog", "*.jsonl")):
                         os.remove(f)
@@ -154,7 +159,12 @@ def run(tier: str, seed: int) -> int:
                     if not by_case:
                         raise Inconclusive("det crates do not build: %s %s" % (
                             rest[0]["rendered"][:1500] if rest else "", err[-1500:]))
-                    # a declaration which does not compile is not C17's business (C10 / C11 report it): drop it
+                    # a declaration which does not compile is not C17's business (C10 / C11 report it): drop it --
+                    # unless it fails in some processes only: the same input text, another outcome
+                    for cid, errs in by_case.items():
+                        where = {e.get("crate") for e in errs}
+                        if None not in where and 0 < len(where) < len(crates) and cid not in partial:
+                            partial[cid] = (sorted(where), errs[0]["message"][:200])
                     dropped.update(by_case)
                 else:
                     raise Inconclusive("det crates still do not build after dropping %d declarations" % len(dropped))
@@ -169,7 +179,16 @@ def run(tier: str, seed: int) -> int:
                         if "begin" in rec and "end" in rec:
                             records.append((rec["begin"]["input"], rec["end"]["output"], rec["begin"]["pid"], rec["begin"]["crate"]))
                     os.remove(f)
+            all_decls = decls
             decls = [dc for i, dc in enumerate(decls) if (i + 1) not in dropped]
+        for cid, (where, msg) in sorted(partial.items()):
+            d, cfg = all_decls[cid - 1]
+            violations.append(Violation(
+                prop, "C17|fails-in-some-processes|%s|%s" % (d.shape, cfg.key()[:80]),
+                "the same input compiles in some rustc processes and is rejected in others (%d of the %d of its round, e.g. %s; "
+                "the processes expand the declarations in different orders): %s -- %s %s" % (
+                    len(where), min(16, P), where[0], msg, d.short(), cfg.short()[:200]),
+                {"kind": "process-dependent-outcome", "crates_failing": where, "message": msg, "source": files[cid][:6000]}))
         by_input = {}
         for inp, out, pid, crate in records:
             by_input.setdefault(inp, {}).setdefault(out, []).append((pid, crate))
